@@ -664,6 +664,7 @@ package reftable
 //@   nopanic
 //@   pure
 //@   ensures result == 20 || result == 32
+//@   ensures[by-id] SHA256ID != SHA1ID && SHA256ID != NullHashID ==> result == (i == SHA256ID ? 32 : 20)
 
 //@ func headerSize
 //@   props C18
@@ -1353,6 +1354,9 @@ package reftable
 // construction, if any, is built in that buffer and satisfies the block invariant.
 //@ spec wOK(w *Writer) bool = w != nil && len(w.block) == w.cfg.BlockSize && 34 <= w.cfg.BlockSize && w.cfg.BlockSize < 16777216 && w.cfg.RestartInterval != 0 && (w.cfg.HashID == NullHashID || w.cfg.HashID == SHA1ID || w.cfg.HashID == SHA256ID) && (w.blockWriter != nil ==> bwOK(w.blockWriter) && w.blockWriter.buf == w.block && w.blockWriter.headerOff <= 28)
 
+// the writer's configuration is what it was on entry, field by field
+//@ spec cfgKept(w *Writer) bool = w.cfg.Unaligned == old(w.cfg.Unaligned) && w.cfg.BlockSize == old(w.cfg.BlockSize) && w.cfg.SkipIndexObjects == old(w.cfg.SkipIndexObjects) && w.cfg.RestartInterval == old(w.cfg.RestartInterval) && w.cfg.HashID == old(w.cfg.HashID) && w.cfg.SkipNameCheck == old(w.cfg.SkipNameCheck) && w.cfg.ExactLogMessage == old(w.cfg.ExactLogMessage)
+
 //@ func (*Config).setDefaults
 //@   props C14
 //@   modifies cfg.RestartInterval, cfg.BlockSize
@@ -1500,7 +1504,7 @@ package reftable
 //@   ensures[index-entry-names-last-key-and-position] result == nil && old(w.blockWriter) != nil && old(w.blockWriter.entries) > 0 ==> w.index[len(w.index)-1].LastKey == old(w.blockWriter.lastKey) && w.index[len(w.index)-1].Offset == old(w.next)
 //@   ensures[earlier-index-entries-kept] result == nil && old(w.blockWriter) != nil && old(w.blockWriter.entries) > 0 ==> (forall k int :: 0 <= k && k < old(len(w.index)) ==> w.index[k] == old(w.index[k]))
 //@   ensures[nothing-to-flush] old(w.blockWriter) == nil ==> result == nil && w.index == old(w.index) && w.blockWriter == nil
-//@   ensures[config-kept] w.cfg == old(w.cfg) && w.block == old(w.block) && w.lastKey == old(w.lastKey) && w.minUpdateIndex == old(w.minUpdateIndex) && w.maxUpdateIndex == old(w.maxUpdateIndex)
+//@   ensures[config-kept] cfgKept(w) && w.block == old(w.block) && w.lastKey == old(w.lastKey) && w.minUpdateIndex == old(w.minUpdateIndex) && w.maxUpdateIndex == old(w.maxUpdateIndex)
 
 // C14 (keys strictly ascending within and across blocks): add refuses - by panicking, here a precondition - a key that is
 // not greater than the last one; the record goes into the current block, or into a fresh block after the full one was flushed.
@@ -1509,16 +1513,31 @@ package reftable
 //@   requires wOK(w) && recAny(rec)
 //@   modifies w.ALLFIELDS, anyof(*blockWriter), anyof([]byte), anyof([]uint32), anyof([]indexRecord), asptr(rec, *LogRecord).Old if istype(rec, *LogRecord), asptr(rec, *LogRecord).New if istype(rec, *LogRecord), pv
 //@   ensures[inv] result == nil ==> wOK(w)
-//@   ensures[config-kept] w.cfg == old(w.cfg) && w.block == old(w.block)
+//@   ensures[config-kept] cfgKept(w) && w.block == old(w.block)
 //@   ensures[last-key] w.lastKey == old(keyOf(rec))
 //@   ensures[keys-strictly-ascending] old(w.lastKey) < w.lastKey
 //@   ensures[keeps-given-hashes] istype(rec, *LogRecord) ==> (old(asptr(rec, *LogRecord).Old) != nil || old(logIsDel(asptr(rec, *LogRecord))) ==> asptr(rec, *LogRecord).Old == old(asptr(rec, *LogRecord).Old)) && (old(asptr(rec, *LogRecord).New) != nil || old(logIsDel(asptr(rec, *LogRecord))) ==> asptr(rec, *LogRecord).New == old(asptr(rec, *LogRecord).New))
 
-//@ func (*Writer).AddRef
+// trusted: records object ids for the object index (map contents are not tracked)
+//@ func (*Writer).indexHash
 //@   trusted
-//@   requires wOK(w)
+//@   modifies nothing
+
+// C01/C14: the writer accepts only ref records the reader can decode again: the value type is derived from which of
+// Value, TargetValue and Target are set, and hashes have the table's hash size - anything else would be written as bytes
+// that decode to a different record or derail the records behind it.
+// assumed: the three hash-id package variables keep their (distinct) initial values
+//@ axiom hashIDsDistinct: SHA1ID != SHA256ID && SHA1ID != NullHashID && SHA256ID != NullHashID
+//@ spec refHashSize(w *Writer) int = (w.cfg.HashID == SHA256ID ? 32 : 20)
+//@ spec wfRefVal(r *RefRecord, hs int) bool = (len(r.Value) == 0 || len(r.Value) == hs) && (len(r.TargetValue) == 0 || (len(r.TargetValue) == hs && len(r.Value) == hs)) && (len(r.Target) == 0 || (len(r.Value) == 0 && len(r.TargetValue) == 0))
+//@ func (*Writer).AddRef
+//@   props C01 C14 C07 C13
+//@   requires wOK(w) && r != nil
 //@   modifies w.ALLFIELDS, anyof(*blockWriter), anyof([]byte), anyof([]uint32), anyof([]indexRecord), pv
 //@   ensures result == nil ==> wOK(w)
+//@   ensures[accepts-only-decodable-records] result == nil ==> wfRefVal(r, refHashSize(w)) && r.RefName != ""
+//@   ensures[update-index-inside-the-limits] result == nil ==> old(w.minUpdateIndex) <= r.UpdateIndex && r.UpdateIndex <= old(w.maxUpdateIndex)
+//@   ensures[record-untouched] r.RefName == old(r.RefName) && r.UpdateIndex == old(r.UpdateIndex) && r.Value == old(r.Value) && r.TargetValue == old(r.TargetValue) && r.Target == old(r.Target)
 //@   sets wRefSeq = wRefSeq + 1
 //@   sets wRefName = r.RefName
 //@   sets wRefIdx = r.UpdateIndex
@@ -1549,9 +1568,9 @@ package reftable
 //@   ensures[inv] result == nil ==> wOK(w)
 //@   ensures[index-entries-do-not-leak] result == nil ==> len(w.index) == 0
 //@   ensures[nothing-left-unflushed] result == nil ==> w.blockWriter == nil || w.blockWriter.entries == 0
-//@   ensures[config-kept] w.cfg == old(w.cfg) && w.block == old(w.block)
-//@   loop 1 invariant[outer] wOK(w) && w.cfg == old(w.cfg) && w.block == old(w.block) && (w.blockWriter == nil || w.blockWriter.entries == 0)
-//@   loop 2 invariant[inner] -1 <= rangeindex && rangeindex < len(idx) && wOK(w) && w.cfg == old(w.cfg) && w.block == old(w.block) && w.blockWriter != nil
+//@   ensures[config-kept] cfgKept(w) && w.block == old(w.block)
+//@   loop 1 invariant[outer] wOK(w) && cfgKept(w) && w.block == old(w.block) && (w.blockWriter == nil || w.blockWriter.entries == 0)
+//@   loop 2 invariant[inner] -1 <= rangeindex && rangeindex < len(idx) && wOK(w) && cfgKept(w) && w.block == old(w.block) && w.blockWriter != nil
 
 // trusted (object index): ends the current section; afterwards no block is under construction
 //@ func (*Writer).finishPublicSection
@@ -1559,7 +1578,7 @@ package reftable
 //@   requires wOK(w)
 //@   modifies w.ALLFIELDS, anyof(*blockWriter), anyof([]byte), anyof([]uint32), anyof([]indexRecord), pv
 //@   ensures result == nil ==> wOK(w) && w.blockWriter == nil
-//@   ensures w.cfg == old(w.cfg) && w.block == old(w.block)
+//@   ensures cfgKept(w) && w.block == old(w.block)
 
 // C07/C13/C01 (log tombstones stay tombstones): a deletion record reaches the block writer as a deletion record - the
 // message normalisation must not turn its empty message into "\n". The record handed on is *l itself, so the clause
